@@ -2121,6 +2121,12 @@ impl<'a, E: quiver_core::effects::Effect> Compiler<'a, E> {
                 if let Some(d) = &mut dispatch {
                     d.valid = false;
                 }
+                // The condition may have stored locals before evaluating to nil; drop them so
+                // the next branch starts from the slot numbering it was compiled against.
+                if self.local_count > param_local + 1 {
+                    self.codegen
+                        .add_instruction(Instruction::Reset(param_local + 1));
+                }
                 continue;
             }
 
